@@ -112,3 +112,20 @@ package rpm
 //@   ensures [C07] no-env: implies(old(info.RPM.BuildHost) != "", ghostFlag("envRead") == old(ghostFlag("envRead")))
 //@   ensures [C17] compressor-default: implies(err == nil, meta.Compressor == nzs(old(info.RPM.Compression), "gzip:-1"))
 //@   modifies [C11 C12] &info.RPM.Compression, flag("envRead"), flag("clockRead")
+//
+//@ spec func slotOK(set bool, body string, path string) bool {
+//@     if path == "" { return !set }
+//@     return set && body == fsContent(path)
+//@ }
+//
+//@ inline func addScriptFiles(info *nfpm.Info, rpm *rpmpack.RPM) (err error)
+//@   requires info != nil && rpm != nil
+//@   requires !ghostFlag("failed")
+//@   requires !ghostBool(rpm, "rpmset:pretrans") && !ghostBool(rpm, "rpmset:prein") && !ghostBool(rpm, "rpmset:preun") && !ghostBool(rpm, "rpmset:postin") && !ghostBool(rpm, "rpmset:postun") && !ghostBool(rpm, "rpmset:posttrans") && !ghostBool(rpm, "rpmset:verifyscript")
+//@   ensures [C09] pretrans: implies(err == nil, slotOK(ghostBool(rpm, "rpmset:pretrans"), ghostStr(rpm, "rpm:pretrans"), info.RPM.Scripts.PreTrans))
+//@   ensures [C09] prein: implies(err == nil, slotOK(ghostBool(rpm, "rpmset:prein"), ghostStr(rpm, "rpm:prein"), info.Scripts.PreInstall))
+//@   ensures [C09] preun: implies(err == nil, slotOK(ghostBool(rpm, "rpmset:preun"), ghostStr(rpm, "rpm:preun"), info.Scripts.PreRemove))
+//@   ensures [C09] postin: implies(err == nil, slotOK(ghostBool(rpm, "rpmset:postin"), ghostStr(rpm, "rpm:postin"), info.Scripts.PostInstall))
+//@   ensures [C09] postun: implies(err == nil, slotOK(ghostBool(rpm, "rpmset:postun"), ghostStr(rpm, "rpm:postun"), info.Scripts.PostRemove))
+//@   ensures [C09] posttrans: implies(err == nil, slotOK(ghostBool(rpm, "rpmset:posttrans"), ghostStr(rpm, "rpm:posttrans"), info.RPM.Scripts.PostTrans))
+//@   ensures [C09] verifyscript: implies(err == nil, slotOK(ghostBool(rpm, "rpmset:verifyscript"), ghostStr(rpm, "rpm:verifyscript"), info.RPM.Scripts.Verify))
